@@ -604,6 +604,8 @@ fn mpqs_poly(s: &SieveMPQS, idx: usize, d: u128, r: &Uint, wks: &mut Workspace) 
         roots1[i] = r1;
         roots2[i] = r2;
     }
+    #[cfg(yamaquasi_verif)]
+    verif_poly_log_push(d, r, start_offset, nblocks, roots1, roots2);
     let roots12 = [roots1.as_ref(), roots2.as_ref()];
     let mut state = sieve::Sieve::new(start_offset, nblocks, fbase, roots12, wks.recycled.take());
     if nblocks == 0 {
@@ -770,4 +772,111 @@ fn sieve_block_poly(s: &SieveMPQS, pol: &Poly, roots: [&[u32]; 2], st: &mut siev
         crate::verif_sched::yield_point(11);
         s.rels.write().unwrap().add(rel, pq);
     }
+}
+
+// ---------------------------------------------------------------------------
+// Verification hooks (add-only, compiled only with `--cfg yamaquasi_verif`).
+
+#[cfg(yamaquasi_verif)]
+impl Poly {
+    /// (c, bb, dinv): the crate-private fields.
+    pub fn verif_private(&self) -> (I256, Uint, Uint) {
+        (self.c, self.bb, self.dinv)
+    }
+}
+
+/// Interval size selected by `mpqs()` for the (already multiplied) input.
+#[cfg(yamaquasi_verif)]
+pub fn verif_c12_interval_size(n: &Uint) -> i64 {
+    mpqs_interval_size(n)
+}
+
+/// Root tables for the polynomials of the given (D, r) values, computed the way
+/// `process_poly_block`/`mpqs_poly` do it (chunks of 16, batch inversion, `prepare_prime`).
+/// Returns (start_offset, [(poly, roots1, roots2)]).
+#[cfg(yamaquasi_verif)]
+pub fn verif_c12_poly_roots(
+    n: &Uint,
+    fbase: &FBase,
+    drs: &[(u128, Uint)],
+    interval_size: i64,
+) -> (i64, Vec<(Poly, Vec<u32>, Vec<u32>)>) {
+    let prefs = Preferences::default();
+    let inverters: Vec<_> = (0..fbase.len())
+        .map(|idx| arith::Inverter::new(fbase.p(idx)))
+        .collect();
+    let rels = RwLock::new(RelationSet::new(*n, fbase.len(), 0));
+    let s = SieveMPQS {
+        n: *n,
+        fbase,
+        inverters: &inverters,
+        maxlarge: 0,
+        use_double: false,
+        interval_size,
+        d_target: 0,
+        rels: &rels,
+        prefs: &prefs,
+        polys_done: AtomicUsize::new(0),
+        target: AtomicUsize::new(0),
+        done: AtomicBool::new(false),
+    };
+    let mut wks = Workspace::default();
+    let start_offset = -s.interval_size / 2;
+    let mut out = vec![];
+    for chunk in drs.chunks(16) {
+        wks.batch_inversion(&s, chunk.iter().map(|&(d, _)| d).collect());
+        for (idx, (d, r)) in chunk.iter().enumerate() {
+            let pol = make_poly(n, *d, r);
+            let dinvs = wks.dinv_modp[idx].as_ref();
+            let mut roots1 = vec![0u32; fbase.len()];
+            let mut roots2 = vec![0u32; fbase.len()];
+            for i in 0..fbase.len() {
+                let (r1, r2) = pol.prepare_prime(
+                    fbase.p(i),
+                    fbase.r(i),
+                    fbase.div(i),
+                    &s.inverters[i],
+                    dinvs[i],
+                    start_offset as i32,
+                );
+                roots1[i] = r1;
+                roots2[i] = r2;
+            }
+            out.push((pol, roots1, roots2));
+        }
+    }
+    (start_offset, out)
+}
+
+/// One polynomial observed at the hand-off to `Sieve::new` in `mpqs_poly`:
+/// (D, r, start_offset, nblocks, roots1, roots2).
+#[cfg(yamaquasi_verif)]
+pub type VerifPolyLog = Vec<(u128, Uint, i64, usize, Vec<u32>, Vec<u32>)>;
+
+#[cfg(yamaquasi_verif)]
+thread_local! {
+    static VERIF_POLY_LOG: std::cell::RefCell<Option<(usize, VerifPolyLog)>> = std::cell::RefCell::new(None);
+}
+
+/// Start recording on this thread (at most `cap` polynomials are kept).
+#[cfg(yamaquasi_verif)]
+pub fn verif_poly_log_start(cap: usize) {
+    VERIF_POLY_LOG.with(|l| *l.borrow_mut() = Some((cap, vec![])));
+}
+
+/// Stop recording and return what was observed.
+#[cfg(yamaquasi_verif)]
+pub fn verif_poly_log_take() -> VerifPolyLog {
+    VERIF_POLY_LOG.with(|l| l.borrow_mut().take().map(|x| x.1).unwrap_or_default())
+}
+
+#[cfg(yamaquasi_verif)]
+fn verif_poly_log_push(d: u128, r: &Uint, start_offset: i64, nblocks: usize, r1: &[u32], r2: &[u32]) {
+    VERIF_POLY_LOG.with(|l| {
+        if let Some((cap, v)) = l.borrow_mut().as_mut() {
+            if v.len() < *cap {
+                v.push((d, *r, start_offset, nblocks, r1.to_vec(), r2.to_vec()));
+            }
+        }
+    });
 }
